@@ -367,20 +367,22 @@ TEXT = {'C11': {'technique': 'Lean 4 proof by mutual structural induction over t
                   'token edits, nesting families. Oracles: accepted => sentence of grammar.y with exactly one derivation (Earley); generated sentence => '
                   "accepted with the generator's tree. **Translator tie (regenerated on every run):** extract/arms.py reads, for each of the 36 packrat "
                   'functions of parser.rs, the macro invocations and calls in order (try_return!/try_eval!/plain call/consume_token!/expect_token!/node '
-                  'built); for the 8 choice functions, the 9 binary-operator functions and the 5 keyword leaves (22 of 36) the body the model runs IS the '
-                  'interpretation of the extracted row (C07_parser_steps_regular: alternatives in order; left operand nonterminal, operator token, right '
-                  'operand nonterminal, node), the other 14 rows are compared with the rows the model was written from (C07_parser_steps_irregular). '
-                  '**Unambiguity of grammar.y is a theorem (Lemmas/Unambiguous.lean): a token segment has at most one parse tree from any of the 36 '
-                  'nonterminals (C07_unambiguous), by an extension law — two derivations from the same nonterminal and start either end together with equal '
-                  'trees or the token after the shorter one lies in a fixed set that contains no separator of the construct (C07_extension_law; atoms are '
-                  'prefix-free: C07_atom_end_unique); hence the tree the parser returns for an accepted input is THE tree of that token sequence '
-                  '(C07_accepted_unique_tree). ** **Completeness is a theorem too (Lemmas/ParseComplete*.lean, statements in Props/C07b.lean): '
-                  'C07_parse_complete — every sentence of the grammar (any token array that is a `term` segment with parse tree t) is accepted by the parser '
-                  'model with exactly the tree t, every token consumed, no error recorded — ordered choice and the three error-recovering functions included: '
-                  'on a sentence every alternative tried before the right one fails and recovery never commits wrongly; C07_accepted_iff_sentence — the parser '
-                  "accepts a token array iff it is a sentence, and what it returns is the sentence's unique tree. With soundness (C07_parse_sound), "
-                  "unambiguity (C07_unambiguous) and left association of chains (C07_*_left_assoc_fixed), the property's iff holds for the model for every "
-                  'token sequence; the model is tied to parser.rs by the steps translator and the correspondence suite.**',
+                  'built); for 33 of the 36 functions the body the model runs IS the interpretation of the extracted row by a generic combinator of its shape '
+                  '(C07_parser_steps_regular: the 8 choice functions — alternatives in order —, the 9 binary-operator functions — operand nonterminals, '
+                  'operator token, node — and the 5 keyword leaves; C07_parser_steps_regular2: variable, literal, the two plain and four annotated binders, '
+                  'arrow, application, negation — every token kind, every nonterminal called, node and `implicit` flag from the row); the 3 functions with '
+                  'recovery scans are compared with the rows the model was written from (C07_parser_steps_irregular). **Unambiguity of grammar.y is a theorem '
+                  '(Lemmas/Unambiguous.lean): a token segment has at most one parse tree from any of the 36 nonterminals (C07_unambiguous), by an extension '
+                  'law — two derivations from the same nonterminal and start either end together with equal trees or the token after the shorter one lies in a '
+                  'fixed set that contains no separator of the construct (C07_extension_law; atoms are prefix-free: C07_atom_end_unique); hence the tree the '
+                  'parser returns for an accepted input is THE tree of that token sequence (C07_accepted_unique_tree). ** **Completeness is a theorem too '
+                  '(Lemmas/ParseComplete*.lean, statements in Props/C07b.lean): C07_parse_complete — every sentence of the grammar (any token array that is a '
+                  '`term` segment with parse tree t) is accepted by the parser model with exactly the tree t, every token consumed, no error recorded — '
+                  'ordered choice and the three error-recovering functions included: on a sentence every alternative tried before the right one fails and '
+                  'recovery never commits wrongly; C07_accepted_iff_sentence — the parser accepts a token array iff it is a sentence, and what it returns is '
+                  "the sentence's unique tree. With soundness (C07_parse_sound), unambiguity (C07_unambiguous) and left association of chains "
+                  "(C07_*_left_assoc_fixed), the property's iff holds for the model for every token sequence; the model is tied to parser.rs by the steps "
+                  'translator and the correspondence suite.**',
          'note': 'Trusted: Lean kernel, standard axioms, harness/driver, the Earley recogniser, the renderer of prog.rs.'},
  'C08': {'technique': 'Lean proof that the model resolver (name->depth map with insert/remove, as the Rust) is sound and complete w.r.t. a binder-stack '
                       'specification toDB, restores its map, and allocates fresh holes; resolver model tied to parser.rs by op `parse` (indices of every '
